@@ -197,6 +197,12 @@ def _serializer_structural(ctx, R, s6_done):
                 frags.append((c, c.value))
             elif isinstance(p, ast.BinOp) and isinstance(p.op, ast.Mod) and p.left is c:
                 frags.append((c, c.value))
+            elif isinstance(p, ast.BinOp) and isinstance(p.op, ast.Add) and isinstance(p.right if p.left is c else p.left, ast.Name) \
+                    and isinstance(f.defaults().get((p.right if p.left is c else p.left).id), ast.Constant) \
+                    and isinstance(f.defaults()[(p.right if p.left is c else p.left).id].value, str):
+                # `";" + newline` with newline="\n" by default: the fragment under the default
+                d_ = f.defaults()[(p.right if p.left is c else p.left).id].value
+                frags.append((c, c.value + d_ if p.left is c else d_ + c.value))
             elif isinstance(p, ast.Call) and call_name(p) in ("__print", "_Command__print") or (
                     isinstance(p, ast.Call) and isinstance(p.func, ast.Attribute) and p.func.attr.endswith("print") and c in p.args):
                 frags.append((c, c.value))
@@ -420,6 +426,11 @@ def s6(ctx, R):
         return None
     from sa.util import module_resolver
     _mod_resolve = module_resolver(ctx.program, R.cmod)
+    class_exprs = {}
+    for st_ in R.Command.node.body:
+        if isinstance(st_, ast.Assign) and len(st_.targets) == 1 and isinstance(st_.targets[0], ast.Name) and isinstance(st_.value, ast.Call):
+            nm_ = st_.targets[0].id
+            class_exprs[mangle(R.Command.name, nm_) if nm_.startswith("__") and not nm_.endswith("__") else nm_] = st_.value
     n = 0
     undecided = 0
     # a text: block is written the same way at every nesting depth
@@ -432,6 +443,7 @@ def s6(ctx, R):
                "self.name": fd.Const("cmd"), "indentlevel": fd.Const(indent)}
         it = fd.Interp(f.node, R.Command.name, oracle, loop_unroll=max(2, len(expect) + 1 if isinstance(expect, list) else 2), max_depth=5,
                        resolve=_mod_resolve)
+        it.class_attr_exprs = class_exprs
         try:
             paths = it.run(env)
         except fd.TooManyPaths:
@@ -503,11 +515,16 @@ def s6(ctx, R):
         ctx.notice("S6", "string-list items are not written through a comprehension: item discipline not evaluated")
     for c in comps:
         var = c.generators[0].target.id
-        it = fd.Interp(f.node, R.Command.name, oracle)
+        it = fd.Interp(f.node, R.Command.name, oracle, resolve=_mod_resolve, max_depth=5)
+        it.class_attr_exprs = class_exprs
         bad = None
         for item in items:
             st = fd.State()
             st.env[var] = fd.Const(item)
+            # the other parameters of tosieve at their defaults (a line terminator, an indentation)
+            for p_, d_ in f.defaults().items():
+                if isinstance(d_, ast.Constant):
+                    st.env[p_] = fd.Const(d_.value)
             res = it.eval(c.elt, st)
             for v, _ in res:
                 if not (isinstance(v, fd.Const) and v.v == item):
